@@ -492,24 +492,28 @@ func init() {
 					"operands supplied as literals and as variables; unary - ^ on the pool; string +/* tables; cache-transparency identities for every i in -3..4098. " +
 					"Compound forms (x op= y is x = x op y, x++/x-- is x = x +/- 1; same native reference as the binary operator): every operator of {+= -= *= /= &= |=} on ALL ordered pairs of the pools, ++/-- on the pools, the string tables (s += t, s += number, number += s, s *= n, s++), each through four kinds of places: a plain variable, a list element, a map member and a function parameter (complete enumeration, operands as literals and as variables, containers built by the script and supplied by the host). " +
 					"Operand provenance (both operands ONE value that reaches the operator from one place; reference = the same native (v op v) as for separately bound operands): every operator on every value of the pools and of the string table with the same name on both sides (x op x), a name and a copy of it (y = x; x op y, copies of copies, either order), two parameters bound to one argument and a parameter with itself (f(x, x), g(x), closures), one list element / map member read twice, an element and the name it was built from, a host function handing its argument back, names bound by the script to a literal, names bound to a value the script computed (p * 1, the quotient n / d: 0.0/0.0 and 1/0.0 for NaN and the infinities), a copy whose original is then reassigned (y = x; x = x + 1; y op x), and the compound forms t op= t (complete enumeration); the empty string times every integer of the pool (\"\" for every count >= 0 however large, an error for a negative one; of the other strings only counts up to 1000 are judged). " +
-					"phase trees: PRNG-generated trees (depth<=3, comparisons at the root) whose leaves are drawn from one to three names, each bound once by the host, by the script to a literal or as a copy of an earlier name, values biased to NaN, the infinities, the zeros and the int64/2^53/cache edges; PRNG-generated expression trees (depth<=4, fully parenthesised) and unparenthesised chains of one precedence level (x op c1 op c2 ..., string/float/int first operand, literal and variable operands) evaluated natively in Go as the left fold; PRNG-generated sequences of 2-4 compound assignments on one place (`t = v; t += a; t *= b - c; t++; t`, operand a leaf or an unparenthesised binary expression) evaluated natively as the fold of the binary operators. phase concurrent (race build): 8 independent interpreters (own environment each) evaluate integer operator chains at the same time, every result handed to a host probe that recomputes it natively (results of different interpreters are chosen congruent modulo 256 and 4096 and outside the small-value range); no race report allowed. `-` and `-=` with a float64 on one side and a string on the other (either order; the strings of the string table and spellings of numbers; literals, variables, container elements, below the root of a tree): the outcome is a float64 of any value or an error, never an int64. phase history: one case = one history in a fresh environment, 3-7 PRNG-chosen steps that try to write to an integer operator/len result (pointer taken of the result - `q = &(a op b); *q = w`, `*q += w`, `*q++`, through a copy of the pointer, inside a loop, inside a script function, through host functions taking *int64 / interface{}, of a call result, of `(i += d)` / `(i++)` - and stores to names, list elements, map members and parameters bound to the result), targets inside, on the edges of and outside the small-value range; afterwards every target value is produced again by every operator of the statement (and used in comparisons, a concatenation and float operations) in the same and in a fresh environment, one row of the enumerated table is recomputed, and a fresh environment sweeps every integer of -3..4098 through eleven formulas checked by a host probe; the cases of a chunk share one process. phase spelling (complete enumeration; the result of an operator does not depend on how a literal operand is written): every spelling of 18 integers, 18 floats and the string table - decimal numerals with leading zeros, -0 and its variants, 0x/0X/0b/0B forms with and without leading zeros, a sign written before the numeral (with and without a blank, before a parenthesis, doubled), one or two pairs of parentheses, floats in fixed notation with trailing and leading zeros, in exponent notation with shifted mantissas, upper-case E, signed and unpadded exponents, strings in double, single and back quotes - is evaluated alone, below unary - and ^, and as a DIRECT operand of every operator of {+ - * / % & | << >> == != < <= > >=} on either side, with integer, float and string partners (rotating through partner tables in the quick tier, the whole pools in the thorough tier) supplied as variables, canonical literals and literals in another spelling; the expression stands alone, on the right of an assignment, in a function body, in a loop body run three times, in a list and a map literal, as an argument of a host and of a script function, in an if branch, is written without blanks, and is parsed once and run twice in fresh environments; the literal is also bound to a name, passed as an argument and stored in a list before the operator reads it; the same spellings as the right operand of every compound form {+= -= *= /= &= |=} through the four kinds of places, in a loop (the fold), parsed once and run twice, and as the value the place starts from. Reference: the same native function applied to the literal's value. phase trees additionally: PRNG-generated trees, unparenthesised chains (operator sets {+ -}, {* / %}, {&}, {|}, {<<}, {>>}, with and without blanks) and compound sequences whose literal leaves are written in PRNG-chosen spellings, in PRNG-chosen statement positions. An evaluation is non-trivial when the native reference is inside the property's stated domain; distinct = distinct (source, bindings).",
+					"phase trees: PRNG-generated trees (depth<=3, comparisons at the root) whose leaves are drawn from one to three names, each bound once by the host, by the script to a literal or as a copy of an earlier name, values biased to NaN, the infinities, the zeros and the int64/2^53/cache edges; PRNG-generated expression trees (depth<=4, fully parenthesised) and unparenthesised chains of one precedence level (x op c1 op c2 ..., string/float/int first operand, literal and variable operands) evaluated natively in Go as the left fold; PRNG-generated sequences of 2-4 compound assignments on one place (`t = v; t += a; t *= b - c; t++; t`, operand a leaf or an unparenthesised binary expression) evaluated natively as the fold of the binary operators. phase concurrent (race build): 8 independent interpreters (own environment each) evaluate integer operator chains at the same time, every result handed to a host probe that recomputes it natively (results of different interpreters are chosen congruent modulo 256 and 4096 and outside the small-value range); no race report allowed. `-` and `-=` with a float64 on one side and a string on the other (either order; the strings of the string table and spellings of numbers; literals, variables, container elements, below the root of a tree): the outcome is a float64 of any value or an error, never an int64. phase history: one case = one history in a fresh environment, 3-7 PRNG-chosen steps that try to write to an integer operator/len result (pointer taken of the result - `q = &(a op b); *q = w`, `*q += w`, `*q++`, through a copy of the pointer, inside a loop, inside a script function, through host functions taking *int64 / interface{}, of a call result, of `(i += d)` / `(i++)` - and stores to names, list elements, map members and parameters bound to the result), targets inside, on the edges of and outside the small-value range; afterwards every target value is produced again by every operator of the statement (and used in comparisons, a concatenation and float operations) in the same and in a fresh environment, one row of the enumerated table is recomputed, and a fresh environment sweeps every integer of -3..4098 through eleven formulas checked by a host probe; the cases of a chunk share one process. phase spelling (complete enumeration; the result of an operator does not depend on how a literal operand is written): every spelling of 18 integers, 18 floats and the string table - decimal numerals with leading zeros, -0 and its variants, 0x/0X/0b/0B forms with and without leading zeros, a sign written before the numeral (with and without a blank, before a parenthesis, doubled), one or two pairs of parentheses, floats in fixed notation with trailing and leading zeros, in exponent notation with shifted mantissas, upper-case E, signed and unpadded exponents, strings in double, single and back quotes - is evaluated alone, below unary - and ^, and as a DIRECT operand of every operator of {+ - * / % & | << >> == != < <= > >=} on either side, with integer, float and string partners (rotating through partner tables in the quick tier, the whole pools in the thorough tier) supplied as variables, canonical literals and literals in another spelling; the expression stands alone, on the right of an assignment, in a function body, in a loop body run three times, in a list and a map literal, as an argument of a host and of a script function, in an if branch, is written without blanks, and is parsed once and run twice in fresh environments; the literal is also bound to a name, passed as an argument and stored in a list before the operator reads it; the same spellings as the right operand of every compound form {+= -= *= /= &= |=} through the four kinds of places, in a loop (the fold), parsed once and run twice, and as the value the place starts from. Reference: the same native function applied to the literal's value. phase trees additionally: PRNG-generated trees, unparenthesised chains (operator sets {+ -}, {* / %}, {&}, {|}, {<<}, {>>}, with and without blanks) and compound sequences whose literal leaves are written in PRNG-chosen spellings, in PRNG-chosen statement positions. An evaluation is non-trivial when the native reference is inside the property's stated domain; distinct = distinct (source, bindings)." + c05R8Rule,
 				Assumptions: []string{"Go's own int64/float64 arithmetic, strconv and fmt are the reference", "operands outside the statement (bool/nil, float operands of % & | << >>, n*string, string*float, int - string, string / x, comparisons with a string) are not judged",
 					"float - string and string - float: the statement fixes the kind of the outcome (float64) but not the number a string counts as; an error is accepted too",
 					"the steps of a history are not judged themselves (the statement says nothing about pointers); only the arithmetic done after them is, against the same native reference",
 					"a compound assignment `x op= y` / `x++` / `x--` denotes `x = x op y` / `x = x + 1` / `x = x - 1` with the operator of the statement (the language's definition of the compound forms); only the value stored in the place is judged, operands are free of side effects (evaluation order belongs to C07)",
 					"where an operand was read from (the same name twice, a copy, a parameter, a container element) is not an input of the operator: v op v has Go's result for the value pair (v, v), so a float64 NaN is unequal to and unordered with itself; `y = x` and parameter passing bind the value of a number or string (reassigning the name x afterwards does not change y)",
 					"a numeral denotes the value Go's syntax gives it (strconv: 0x/0b prefixes, fractions, exponents, superfluous zeros), like the canonical numerals of the older tables; the one exception are decimal integer numerals with leading zeros and a value above 7 (010, 08), which Go reads as octal or refuses and the statement does not mention: their value is observed by evaluating the numeral alone (it must be an int64, otherwise the spelling is counted as excluded) and the operators are judged on the observed value",
-					"a sign or a unary operator written before a numeral applies to the numeral alone, whatever binary operator follows (-7 >> 1 is (-7) >> 1, Go's precedence); single- and back-quoted strings without quotes or backslashes inside denote the characters between the quotes"},
-				Phases: []fw.Phase{
+					"a sign or a unary operator written before a numeral applies to the numeral alone, whatever binary operator follows (-7 >> 1 is (-7) >> 1, Go's precedence); single- and back-quoted strings without quotes or backslashes inside denote the characters between the quotes",
+					c05R8Assumptions[0], c05R8Assumptions[1], c05R8Assumptions[2]},
+				Phases: append([]fw.Phase{
 					{Name: "enum", Cases: provBase + c05SameBoxCases(), Chunk: 60, Exhaust: true, TimeoutS: 600},
 					{Name: "trees", Cases: nRand, Chunk: 100, TimeoutS: 900},
 					{Name: "concurrent", Race: true, Cases: nConc, Chunk: 4, TimeoutS: 900, Jobs: 4},
 					{Name: "history", Cases: nHist, Chunk: 4, TimeoutS: 600, Jobs: 4, MemMB: 3072},
 					{Name: "spelling", Cases: c05SpellingCases(), Chunk: 3, Exhaust: true, TimeoutS: 900},
-				},
+				}, c05R8Phases(tier)...),
 			}
 		},
 		Run: func(c *wk.Case) {
+			if c05R8Run(c, pool) {
+				return
+			}
 			if c.Phase == "concurrent" {
 				c05Concurrent(c)
 				return
